@@ -590,6 +590,7 @@ pub fn run(op: &str, a: &Args) -> Option<Outcome> {
         ["ctx", "script"] => Some(crate::ops_more::ctx_script(arg(a, "script"))),
         ["dom", "order_keys"] => Some(crate::ops_more::dom_order_keys(arg(a, "doc"))),
         ["dom", "tree_atomic"] => Some(crate::ops_more::dom_tree_atomic(arg(a, "scenario"))),
+        ["dom", "attr_owner"] => Some(crate::ops_more::dom_attr_owner(arg(a, "scenario"))),
         ["dom", "views_after_edits"] => Some(crate::ops_more::dom_after_edits(arg(a, "scenario"), "views")),
         ["dom", "keys_after_edits"] => Some(crate::ops_more::dom_after_edits(arg(a, "scenario"), "keys")),
         ["dom", "preorder_after_edits"] => Some(crate::ops_more::dom_after_edits(arg(a, "scenario"), "preorder")),
@@ -807,6 +808,11 @@ pub fn grid(op: &str, limit: usize) -> (usize, Vec<(Args, Outcome)>) {
             let attrs: String = (0..2000).map(|i| format!(" a{}=\"v\"", i)).collect();
             let many_attrs = format!("<r{}/>", attrs);
             try_one(mk(&[("doc", many_attrs.as_str())]), &mut n, &mut bad);
+        }
+        ["dom", "attr_owner"] => {
+            for sc in crate::ops_more::ATTR_OWNER_SCENARIOS {
+                try_one(mk(&[("scenario", sc)]), &mut n, &mut bad);
+            }
         }
         ["dom", "order_keys"] => {
             for d in crate::ops_more::ORDER_DOCS {
